@@ -284,7 +284,10 @@ func (pa *panicAnalysis) uncoveredCall(fb *fnBody, n *ast.CallExpr, name string)
 		return "", "frozen std leaf: " + r
 	}
 	if r, ok := panicFrozen[fb.name+"|"+name]; ok {
-		return "", "frozen exception: " + r
+		if bad := pa.frozenSideCondition(fb, n); bad != "" {
+			return "frozen exception " + name + " no longer justified: " + bad, ""
+		}
+		return "", "frozen exception: " + r + " (side condition re-checked: every explicit failure site in the callee's package reachable from it asserts the negation of a guard that dominates this call)"
 	}
 	if obj := c.calleeObj(n); obj != nil {
 		if fd := pa.decls[obj]; fd != nil {
@@ -684,4 +687,114 @@ func rootLocal(c *Ctx, body *ast.BlockStmt, e ast.Expr) types.Object {
 		}
 	}
 	return nil
+}
+
+// frozenSideCondition re-establishes, on every run, why an uncovered call to a frozen callee cannot fail through an
+// explicit failure site: every util.Assert / panic / Unreachable / MustCompile(non-constant) in the module functions
+// reachable from the callee must assert a condition that, written in terms of the caller's arguments, is the negation of
+// the condition of an `if cond { return … }` guard that precedes the call at the top level of the caller.
+// Returns "" when justified.
+func (pa *panicAnalysis) frozenSideCondition(fb *fnBody, n *ast.CallExpr) string {
+	c := pa.c
+	// guards of the caller: top-level `if cond { …; return }` statements before the statement containing n
+	var guards []string
+	for _, st := range fb.body.List {
+		if st.Pos() <= n.Pos() && n.End() <= st.End() {
+			break
+		}
+		is, ok := st.(*ast.IfStmt)
+		if !ok || is.Init != nil || is.Else != nil || len(is.Body.List) == 0 {
+			continue
+		}
+		if _, isRet := is.Body.List[len(is.Body.List)-1].(*ast.ReturnStmt); isRet {
+			guards = append(guards, sx(unparen(is.Cond)))
+		}
+	}
+	subst := map[types.Object]ast.Expr{}
+	seen := map[*ast.FuncDecl]bool{}
+	var bad string
+	var rootPkg *types.Package
+	if o := c.calleeObj(n); o != nil {
+		rootPkg = o.Pkg()
+	}
+	var visit func(fd *ast.FuncDecl, call *ast.CallExpr, depth int)
+	visit = func(fd *ast.FuncDecl, call *ast.CallExpr, depth int) {
+		if fd == nil || bad != "" {
+			return
+		}
+		// bind parameters to the argument expressions of this call (first visit wins; a second call site with other
+		// arguments makes the binding ambiguous and is reported)
+		var params []types.Object
+		if fd.Type.Params != nil {
+			for _, f := range fd.Type.Params.List {
+				for _, nm := range f.Names {
+					params = append(params, c.objOf(nm))
+				}
+			}
+		}
+		if seen[fd] {
+			for i, p := range params {
+				if i < len(call.Args) && p != nil {
+					if prev, ok := subst[p]; ok && c.sxInl(prev, subst) != c.sxInl(call.Args[i], subst) {
+						delete(subst, p)
+					}
+				}
+			}
+			return
+		}
+		seen[fd] = true
+		if depth > 12 {
+			bad = "call chain too deep"
+			return
+		}
+		if len(call.Args) == len(params) {
+			for i, p := range params {
+				if p != nil {
+					subst[p] = call.Args[i]
+				}
+			}
+		}
+		inspectNoLit(fd.Body, func(x ast.Node) bool {
+			ce, ok := x.(*ast.CallExpr)
+			if !ok || bad != "" {
+				return true
+			}
+			nm := c.calleeName(ce)
+			switch {
+			case nm == "util.Assert" && len(ce.Args) > 0:
+				cond := unparen(ce.Args[0])
+				justified := false
+				if u, ok := cond.(*ast.UnaryExpr); ok && u.Op == token.NOT {
+					got := c.sxInl(unparen(u.X), subst)
+					for _, g := range guards {
+						if g == got {
+							justified = true
+						}
+					}
+				}
+				if !justified {
+					bad = fmt.Sprintf("%s asserts %s at %s, which is not the negation of a guard that precedes the call (guards: %d); a failing assertion here escapes as a panic", fd.Name.Name, src(cond), c.pos(ce.Pos()), len(guards))
+				}
+			case nm == "builtin.panic" || nm == "util.Unreachable":
+				bad = fmt.Sprintf("%s has an explicit failure site %s at %s outside any handler", fd.Name.Name, src(ce), c.pos(ce.Pos()))
+			case nm == "regexp.MustCompile" && (len(ce.Args) != 1 || c.constOf(ce.Args[0]) == nil):
+				bad = fmt.Sprintf("regexp.MustCompile of a non-constant pattern at %s outside any handler", c.pos(ce.Pos()))
+			default:
+				// stay inside the callee's own package: value rendering (val.String and below) has only the
+				// exhaustive-switch defaults that KINDSW decides
+				if obj := c.calleeObj(ce); obj != nil && obj.Pkg() == rootPkg {
+					if sub := pa.decls[obj]; sub != nil {
+						visit(sub, ce, depth+1)
+					}
+				}
+			}
+			return true
+		})
+	}
+	root := pa.decls[c.calleeObj(n)]
+	if root == nil {
+		return "callee not found in the module"
+	}
+	visit(root, n, 0)
+	return bad
 }
